@@ -1,5 +1,5 @@
 """C13 Fixed-width reading is lossless and aligned."""
-from contracts import rowio_fixed as FX
+from contracts import rowio_fixed as FX, interface as IF, validio as VIO
 
 PROPERTY = "C13"
 TITLE = "Fixed-width reading is lossless and aligned"
@@ -10,4 +10,4 @@ EXPLANATION = ""
 LEVEL_TEXT = "Soundness (lossless, aligned, no silent repair) proved deductively for all streams/widths/settings; completeness (every well-formed input accepted) by bounded-exhaustive sweep against an independent reference reader."
 LEVEL_NOTE = "Trusts the pyvc encoding (z3 string theory, code points), A-ITER (file.read semantics), z3/cvc5."
 TECHNIQUE = "contract-based deductive verification with ghost state (VCs from the ast of the real generator, z3 strings) + bounded completeness sweep"
-UNITS = [FX.unit_fixed_rows()]
+UNITS = [FX.unit_fixed_rows(), IF.unit_field_names_and_lengths(), VIO.unit_raw_rows()]
